@@ -183,6 +183,16 @@ def max_index(keys):
     return best
 
 
+def first_extreme(keys, smaller):
+    """index of the first element e such that no other element is `smaller` than it (left to right scan,
+    replace only on a strict `smaller`): Python's min(key=...) tie rule for an arbitrary strict order"""
+    best = 0
+    for i, k in enumerate(keys):
+        if smaller(k, keys[best]):
+            best = i
+    return best
+
+
 def count(pred_values):
     return sum(1 for p in pred_values if p)
 
@@ -261,6 +271,7 @@ def selfcheck():
     assert batched(0b1011011, 7, 3) == [(0b011, 3), (0b011, 3), (0b1, 1)]
     assert select_batch(0xABC, 0b010, 3, 4) == 0xB
     assert min_index([4, 2, 1, 9, 1, 11]) == 2 and max_index([1, 5, 5]) == 1
+    assert first_extreme([4, 2, 1, 9, 1], lambda a, b: a < b) == 2 and first_extreme([1, 5, 5], lambda a, b: a > b) == 1
     assert concat([(0b1, 1), (0b01, 2)]) == (0b101, 3)
     # CRC-8 poly 0x07 of ASCII "123456789" is 0xF4 (standard check value)
     bits = [(byte >> (7 - i)) & 1 for byte in b"123456789" for i in range(8)]
